@@ -214,10 +214,144 @@ def run(ck, only=None):
         wd = os.path.join(ck.wd, vname)
         os.makedirs(os.path.join(wd, "sub", "dir"), exist_ok=True)
         run_variant(ck, vname, sel, wd, suffix, pathname, input_mode, lang)
+    if not only or only.get("odd"):
+        odd_part(ck, only)
+    if not only or only.get("rerun"):
+        rerun_part(ck, only)
+    if only and (only.get("odd") or only.get("rerun")):
+        return
     ck.sample({"definition": f"{fns[7].storage} {fns[7].proto()} {{ ...fold arguments, store g_hash, derive result... }}", "variants": [v[0] for v in VARIANTS]})
     ck.extra["static_functions"] = len(fns)
     ck.assume("the Rust-side fold is the specification of what a direct C call computes (same generator as C04, where it is validated against "
               "clang-compiled definitions); host target only")
+
+
+ODD_FUNCS = [
+    ("int128", "c", "static inline int wide(int a, __int128 b) { return a + (int)b; }"),
+    ("uint128-result", "c", "static inline unsigned __int128 widen(unsigned a) { return a; }"),
+    ("long-double", "c", "static inline long double ld(long double x) { return x + 1; }"),
+    ("complex", "c", "static inline float cre(_Complex float z) { return __real__ z; }"),
+    ("vector", "c", "typedef float v4 __attribute__((vector_size(16)));\nstatic inline float lane(v4 v) { return v[0]; }"),
+    ("array2d", "c", "static inline int cell(int m[2][3]) { return m[1][2]; }"),
+    ("ptr-to-array", "c", "static inline int first(int (*p)[4]) { return (*p)[0]; }"),
+    ("fnptr-result", "c", "static int helper_fr(int x) { return x; }\nstatic inline int (*pick(int k))(int) { (void)k; return helper_fr; }"),
+    ("fnptr-param-named", "c", "static inline int call2(int (*cb)(int a, char b), int v) { return cb(v, 'x'); }"),
+    ("const-volatile", "c", "static inline int cv(const volatile int *p, volatile char c) { return *p + c; }"),
+    ("restrict", "c", "static inline int rs(int *restrict a, const char *restrict b) { return *a + *b; }"),
+    ("anon-struct-param", "c", "typedef struct { int a; } anon_t;\nstatic inline int an(anon_t s) { return s.a; }"),
+    ("enum-param", "c", "enum color { RED, GREEN };\nstatic inline enum color next(enum color c) { return c == RED ? GREEN : RED; }"),
+    ("keyword-name", "c", "static inline int match(int type) { return type; }"),
+    ("keyword-param", "c", "static inline int kw(int fn, int impl, int self) { return fn + impl + self; }"),
+    ("noreturn", "c", "static inline _Noreturn void die(int c) { for (;;) { (void)c; } }"),
+    ("void-ptr-ptr", "c", "static inline void *vp(void **p, const void *const *q) { (void)q; return *p; }"),
+    ("bool", "c", "static inline _Bool nz(_Bool b, int x) { return b && x; }"),
+    ("char16", "cpp", "static inline int c16(char16_t c, wchar_t w) { return c + w; }"),
+    ("reference", "cpp", "static inline int byref(int &r, const double &d) { return r + (int)d; }"),
+    ("cpp-bool-enum", "cpp", "enum class E : short { A, B };\nstatic inline bool is_a(E e) { return e == E::A; }"),
+    ("cpp-namespace", "cpp", "namespace ns { static inline int inner(int x) { return x * 2; } }"),
+]
+
+
+def odd_part(ck, only=None):
+    """One static function of an unusual type class per header (next to a plain one), through the CLI. Refusing the input with an
+    error is consistent; producing bindings is consistent only if every declared `<name><suffix>` symbol is defined by the emitted
+    wrapper source, which must compile. Also: --prefix-link-name together with wrappers."""
+    import subprocess
+    wd = os.path.join(ck.wd, "odd")
+    os.makedirs(wd, exist_ok=True)
+    rows = [("default", []), ("prefix-link-name", ["--prefix-link-name", "pfx_"])]
+
+    def one(job):
+        (name, lang, src), (rname, rflags) = job
+        ext = "h" if lang == "c" else "hpp"
+        d = os.path.join(wd, f"{name}_{rname}")
+        os.makedirs(d, exist_ok=True)
+        hp = os.path.join(d, f"odd.{ext}")
+        open(hp, "w").write("#pragma once\nstatic inline int plain_ok(int x) { return x + 1; }\n" + src + "\n")
+        w = os.path.join(d, "w")
+        cl = ["--", "-x", "c++", "-std=c++14"] if lang == "cpp" else []
+        p = subprocess.run([common.VDRIVER, "gen-one"] if False else [common.CLI, hp, "--experimental", "--wrap-static-fns", "--wrap-static-fns-path", w, "--no-layout-tests", "-o", os.path.join(d, "b.rs")] + rflags + cl,
+                           env=common.ENV, stdout=subprocess.PIPE, stderr=subprocess.PIPE, timeout=60)
+        if p.returncode != 0:
+            crashed = p.returncode < 0 or p.returncode == 101 or b"panicked" in p.stderr
+            return job, ("panic" if crashed else "refused"), p.stderr.decode(errors="replace")[-200:]
+        text = open(os.path.join(d, "b.rs")).read()
+        links = set(re.findall(r'link_name\s*=\s*"(?:\\u\{1\})?([^"]+)"', text))
+        decl = set(re.findall(r"pub fn (\w+)\s*\(", text))
+        wsrc = w + (".c" if lang == "c" else ".cpp")
+        if not os.path.exists(wsrc):
+            return job, ("dangling" if decl else "nothing"), f"bindings declare {sorted(decl)} but no wrapper source was written"
+        rc, _, err = common.clang((["-x", "c++", "-std=c++14"] if lang == "cpp" else ["-std=gnu11"]) + ["-w", "-I", d, "-c", wsrc, "-o", os.path.join(d, "w.o")], cwd=d)
+        if rc != 0:
+            m = re.search(r"error: (.*)", err)
+            return job, "wrapper-does-not-compile", (m.group(1) if m else err[:200])
+        defined = nm_defined(os.path.join(d, "w.o"))
+        # symbols the bindings expect: link_name when present, the Rust name otherwise
+        expected = set(links) | {n for n in decl if not any(l.startswith(n) or n in l for l in links)}
+        missing = sorted(x for x in expected if x not in defined)
+        if missing:
+            return job, "dangling", f"bindings refer to symbols the wrapper object does not define: {missing} (defined: {sorted(defined)})"
+        return job, "ok", ""
+
+    jobs = [(f, r) for f in ODD_FUNCS for r in rows if not only or (only.get("odd") == f[0] and only.get("row") == r[0])]
+    refused = 0
+    for ((name, lang, src), (rname, _)), verdict, why in common.pmap(one, jobs):
+        ck.count()
+        ck.nontriv(("odd", name, rname))
+        if verdict == "refused":
+            refused += 1
+        elif verdict not in ("ok", "nothing"):
+            ck.violation(f"odd-type {name} row={rname} {verdict}", {"odd": name, "row": rname, "why": f"`{src.splitlines()[-1]}`: {why}"})
+    ck.extra["odd_type_functions"] = len(jobs)
+    ck.extra["odd_type_inputs_refused_with_an_error"] = refused
+
+
+def rerun_part(ck, only=None):
+    """Histories on ONE wrapper path: generate for a header, edit the header (fewer / other / more functions), generate again.
+    The wrapper source on disk must be the one of the last generation (compiles against the current header, nm == bindings)."""
+    import subprocess
+    wd = os.path.join(ck.wd, "rerun")
+    os.makedirs(wd, exist_ok=True)
+    V = {"three": "struct pt { int x, y; };\nstatic inline int sum_pt(struct pt p) { return p.x + p.y; }\nstatic inline int bump(int v) { return v + 1; }\nstatic inline int twice(int v) { return 2 * v; }\n",
+         "one": "static inline int twice(int v) { return 2 * v; }\n",
+         "other": "static inline long other_fn(long a, long b) { return a - b; }\n",
+         "none": "int not_static(int);\n"}
+    hist = [("three", "one"), ("three", "other"), ("one", "three"), ("three", "none"), ("three", "one", "three"), ("other", "one")]
+    for h in hist:
+        jid = "->".join(h)
+        if only and only.get("rerun") != jid:
+            continue
+        ck.count()
+        ck.nontriv(("rerun", jid))
+        d = os.path.join(wd, jid.replace("->", "_"))
+        os.makedirs(d, exist_ok=True)
+        hp, w = os.path.join(d, "api.h"), os.path.join(d, "w")
+        if os.path.exists(w + ".c"):
+            os.remove(w + ".c")
+        bad = None
+        for step in h:
+            open(hp, "w").write("#pragma once\n" + V[step])
+            p = subprocess.run([common.CLI, hp, "--experimental", "--wrap-static-fns", "--wrap-static-fns-path", w, "--no-layout-tests", "-o", os.path.join(d, "b.rs")],
+                               env=common.ENV, stdout=subprocess.PIPE, stderr=subprocess.PIPE, timeout=60)
+            if p.returncode != 0:
+                bad = f"generation {step} failed: {p.stderr.decode(errors='replace')[-200:]}"
+                break
+        if bad is None:
+            text = open(os.path.join(d, "b.rs")).read()
+            links = set(re.findall(r'link_name\s*=\s*"([^"]+)"', text))
+            if h[-1] == "none":
+                pass  # nothing is wrapped any more; a stale file from the earlier generation is not referenced by any binding
+            else:
+                rc, _, err = common.clang(["-std=gnu11", "-w", "-I", d, "-c", w + ".c", "-o", os.path.join(d, "w.o")], cwd=d)
+                if rc != 0:
+                    m = re.search(r"error: (.*)", err)
+                    bad = "the wrapper source left on disk does not compile against the current header: " + (m.group(1) if m else err[:200])
+                else:
+                    defined = nm_defined(os.path.join(d, "w.o"))
+                    if defined != links:
+                        bad = f"wrapper object defines {sorted(defined)} but the bindings of the last generation name {sorted(links)}"
+        if bad:
+            ck.violation(f"rerun history={jid}", {"rerun": jid, "why": bad})
 
 
 def replay(ck, case, detail):
